@@ -11,6 +11,18 @@ CLAIMS_LATER = {
     },
 }
 CLAIMS = {
+    'C11': {
+        'text': 'Reassembly-queue part of C11 (statement (a) and the entry limit) proved in Lean on the L0 model of reassemblyQueue for ALL operation lists '
+                '(arbitrary chunks of both kinds, reads with any buffer size, the four forward handlers): nBytes = sum of len(userData) over all containers '
+                '(so the clamp in subtractNumBytes is dead), the four limited entry counts stay <= maxEntries, limit errors reject without counting. '
+                'The model is tied to reassembly_queue.go by differential replay (honest sender/network and hostile peer generators); the predicate '
+                'getNumBytes() == white-box walk of the real containers is evaluated on the implementation after every operation. '
+                'Statements (b)-(d) (a_rwnd formula over streams, window admission, zero-window rule) belong to the Receiver model and are NOT covered yet.',
+        'note': NOTE_COMMON + ' Hypothesis of C11_counter_exact: fewer than 2^63 user bytes ever pushed (uint64 counter read through int()). '
+                'Go sort.Slice is modelled as its insertion sort (exact for <= 12 elements or totally ordered keys); the hostile generator keeps sorted slices <= 12. '
+                'orderedMIDMap is modelled as the same objects as orderedMID; the harness checks that bijection white-box on every step.',
+        'technique': 'Lean 4 proof (invariant + induction over arbitrary op lists) + model/implementation differential replay + executable predicate on implementation outputs',
+    },
     'C16': {
         'text': 'Serial-number algebra proved in Lean on definitions regenerated from util.go on every run (both widths, all values); '
                 'translator validated against the Go functions on boundary and random inputs; component shift-invariance by theorem on the L0 models.',
@@ -20,6 +32,6 @@ CLAIMS = {
 }
 
 _PENDING = 'check not built yet in this round (planned, see DESIGN.md §5/§8); not claimed until its theorems and correspondence run'
-NOT_APPLICABLE = {p: _PENDING for p in ['C05', 'C01', 'C02', 'C03', 'C04', 'C06', 'C07', 'C08', 'C09', 'C10', 'C11', 'C12', 'C13', 'C14', 'C15', 'C17', 'C18', 'C19', 'C20']}
+NOT_APPLICABLE = {p: _PENDING for p in ['C05', 'C01', 'C02', 'C03', 'C04', 'C06', 'C07', 'C08', 'C09', 'C10', 'C12', 'C13', 'C14', 'C15', 'C17', 'C18', 'C19', 'C20']}
 
 NOTES = 'Family of technique: machine-checked proof in Lean 4. See DESIGN.md. Known findings: known_findings.jsonl.'
